@@ -453,10 +453,11 @@ class ValueWrapper(Term):
             or not self.allow_parametrize
         ):
             sql = self.get_value_sql(ctx)
-            return format_alias_sql(sql, self.alias, ctx)
+            return format_alias_sql(sql, self.alias, ctx) if ctx.with_alias else sql
 
         param = ctx.parameterizer.create_param(self.value)
-        return format_alias_sql(param.get_sql(ctx), self.alias, ctx)
+        sql = param.get_sql(ctx)
+        return format_alias_sql(sql, self.alias, ctx) if ctx.with_alias else sql
 
 
 class JSON(Term):
